@@ -124,11 +124,9 @@ int tcp_set_keepalive(struct tcp_opts *opts, int fd, bool keepalive)
 	    errno = EINVAL;						\
 	    return -1;							\
 	}								\
-	opts->optname = value;						\
-	if (fd < 0)							\
-	    return 0;							\
-	if (effectuate_ ## optname(fd, value) < 0)			\
+	if (fd >= 0 && effectuate_ ## optname(fd, value) < 0)		\
 	    return -1;							\
+	opts->optname = value;						\
 	return 0;							\
     }
 
